@@ -14,7 +14,8 @@ def configs(tier):
     out = []
     i = 0
     shapes = [("combos", [2, 3], 0, []), ("combos", [3], 0, []), ("combos", [2], 1, [[3], [1]]),
-              ("combos", [2, 2], 1, [[2], [1]]), ("cases", [], 2, [[1, 2], [2, 1], [2, 2]]), ("cases", [2], 1, [[3], [1]])]
+              ("combos", [2, 2], 1, [[2], [1]]), ("cases", [], 2, [[1, 2], [2, 1], [2, 2]]), ("cases", [2], 1, [[3], [1]]),
+              ("cases", [2, 3], 1, [[3], [1]])]
     if tier == "thorough":
         shapes += [("combos", [2, 2, 2], 0, []), ("combos", [4, 3], 0, []), ("cases", [], 1, [[v] for v in (3, 1, 4, 2, 5)])]
     for farmer in ("runner", "harvester", "sampler"):
@@ -87,7 +88,7 @@ def run(rep):
         # a second campaign on the same Crop object after the farmer's constants were changed; and a corrected function
         # that reaches the workers through a re-sow
         dict(name="C06_campaigns", configs=campaign_configs(), acts=["grow_missing", "reap_default", "campaign2", "reload"],
-             max_steps=6, mode="sim", num=300 if q else 3000, need=["DoChangeConst"]),
+             max_steps=8, mode="sim", num=500 if q else 4000, need=["DoChangeConst"]),
         # other data harvested directly into the same file before / after the sow must survive the crop's reap, also when
         # the crop (and with it the pickled Harvester) is reloaded by name
         dict(name="C06_direct", configs=[crop.mk([3], kind="combos", bmode="count", bval=2, farmer="harvester"),
